@@ -235,6 +235,13 @@ def main(chk):
                         cases.append(("Acl", "\n".join([h] + list(body)), (("platform", platform), ("indent", indent)), False))
                         if "standard" not in h:
                             cases.append(("AceGroup", "\n".join(body), (("platform", platform),), False))
+    # the third platform: the same object levels on "asa" (IOS-style text)
+    for l in ["permit tcp host 10.0.0.1 any eq 80", "10 deny ip any any log", "permit udp any eq 53 10.0.0.0 0.0.0.255", "permit tcp any any eq 22"]:
+        cases.append(("Ace", l, (("platform", "asa"),), False))
+    for body in (["permit tcp any any eq 80", "deny ip any any"], ["remark r", "permit udp any any eq 53"]):
+        cases.append(("Acl", "\n".join(["ip access-list extended A1"] + body), (("platform", "asa"),), False))
+        cases.append(("AceGroup", "\n".join(body), (("platform", "asa"),), False))
+    cases.append(("Acl", "\n".join(["ip access-list standard S1"] + STANDARD[:2]), (("platform", "asa"),), False))
     res = pmap(check, cases)
     viol = 0
     for fails, _ in res:
